@@ -92,10 +92,29 @@ _CMP = {
 ANALOG_PIN_RE = re.compile(r"^A\d+$")
 
 
+_C_STRING_ESCAPES = {
+    "\\": "\\\\",
+    '"': '\\"',
+    "\n": "\\n",
+    "\r": "\\r",
+    "\t": "\\t",
+}
+
+
 def _escape_string_literal(value: str) -> str:
     """Escape a Python string literal into a C/C++ literal body."""
 
-    return value.replace("\\", "\\\\").replace('"', '\\"')
+    escaped = []
+    for ch in value:
+        if ch in _C_STRING_ESCAPES:
+            escaped.append(_C_STRING_ESCAPES[ch])
+        elif ord(ch) < 0x20 or ord(ch) == 0x7F:
+            # Octal escapes take at most three digits, so the following
+            # character can never be swallowed into the escape.
+            escaped.append(f"\\{ord(ch):03o}")
+        else:
+            escaped.append(ch)
+    return "".join(escaped)
 
 
 class _ExprStr(str):
